@@ -84,3 +84,40 @@ func voteRounds(r *core.Run) {
 		run.Nontrivial(fmt.Sprint("vote-rounds", c.I, kind, peers, n))
 	})
 }
+
+// Group syncing-flood: a node that is still block-syncing receives more consensus data and vote messages than its
+// consensus queue holds (nothing reads that queue before the switch to consensus). Receive must keep returning:
+// the existing session oracle reports a Receive that does not return (hang) with the message that blocked.
+func syncingFlood(r *core.Run) {
+	r.Cases("syncing-flood", r.N(2, 12), childOpts, func(c *core.Case) {
+		rg := c.R
+		spec := envSpec{Mode: "syncing", Height: uint64(3 + rg.Intn(3))}
+		rn := open(c, spec)
+		if rn == nil {
+			return
+		}
+		defer func() { rn.close() }()
+		l := snapshot(rn.e)
+		kinds := []string{"Vote", "BlockPart", "Proposal", "Vote"}
+		sent := 0
+		for sent < 1300 && !rn.broken {
+			var sess []Msg
+			for k := 0; k < 60; k++ {
+				if m, ok := l.validMsg(kinds[rg.Intn(len(kinds))], l.H, l.R); ok {
+					m.Subject = true
+					sess = append(sess, m)
+				}
+			}
+			if len(sess) == 0 {
+				break
+			}
+			rn.Session("none", sess)
+			sent += len(sess)
+		}
+		c.Run.Count("syncing_flood_messages", sent)
+		if sent >= 1100 && !rn.broken {
+			c.Run.Count("syncing_floods_beyond_the_queue_capacity_survived", 1)
+			c.Run.Nontrivial(fmt.Sprint("syncing-flood", c.I, sent))
+		}
+	})
+}
